@@ -41,6 +41,7 @@ THEOREMS = [
     "SleapVerif.C18.targets_agree_scale1",
     "SleapVerif.C18.targets_agree_any_scale",
     "SleapVerif.C18.cfg_max_override_counterexample",
+    "SleapVerif.C18.frameworks_agree_scale1_full_false",
     "SleapVerif.C18.single_maxinst_counterexample",
     "SleapVerif.C18.centered_numInstances_counterexample",
     "SleapVerif.C18.centered_scale_differs",
@@ -420,8 +421,11 @@ def eval_target(t):
 
 
 # ------------------------------------------------------------------ comparisons
-def close_pts(a, b, tol):
-    """NaN pattern exact; values within tol·max(1,|v|). Returns None or a description."""
+def close_pts(a, b, tol, atol=0.0):
+    """NaN pattern exact; values within atol + tol·max(1,|v|). Returns None or a description.
+    `atol` absorbs float32 cancellation: keypoints are computed at frame magnitude (hundreds of
+    pixels) and then shifted to crop coordinates, so the rounding error is relative to the frame
+    size, not to the (possibly small) final value."""
     torch = E["torch"]
     if tuple(a.shape) != tuple(b.shape):
         return f"shape {tuple(a.shape)} vs {tuple(b.shape)}"
@@ -431,7 +435,7 @@ def close_pts(a, b, tol):
     if not torch.equal(na, nb):
         return f"NaN pattern differs: {a.tolist()} vs {b.tolist()}"
     d = (torch.nan_to_num(a) - torch.nan_to_num(b)).abs()
-    lim = tol * torch.clamp(torch.nan_to_num(b).abs(), min=1.0)
+    lim = atol + tol * torch.clamp(torch.nan_to_num(b).abs(), min=1.0)
     if bool((d > lim).any()):
         return f"max |Δ| = {float(d.max()):.6g}: {a.tolist()} vs {b.tolist()}"
     return None
@@ -454,10 +458,12 @@ def is_dyadic(q: Fraction):
     return d & (d - 1) == 0 and d <= 64
 
 
-def compare_model(mt, m, c, raw, exact):
-    """model sample vs canonical framework sample → list of differences."""
+def compare_model(mt, m, c, raw, exact, mag):
+    """model sample vs canonical framework sample → list of differences.  `mag` = largest
+    coordinate magnitude that can occur on the way (frame size × scale)."""
     diffs = []
     ctol = 0.0 if exact else 2e-6
+    atol = 0.0 if exact else 1e-6 * mag
     got = interp(m["img"], raw)
     if tuple(got.shape[-3:]) != m["shape"]:
         diffs.append(f"interpreter shape {tuple(got.shape)} vs model shape {m['shape']}")
@@ -465,7 +471,7 @@ def compare_model(mt, m, c, raw, exact):
     if e:
         diffs.append(f"image: {e} [{m['img_src']}]")
     for key, val in (("inst", insts_tensor(m["inst"])), ("cen", pts_tensor(m["cen"])), ("bbox", pts_tensor(m["bbox"]))):
-        e = close_pts(c[key], val, ctol)
+        e = close_pts(c[key], val, ctol, atol)
         if e:
             diffs.append(f"{key}: {e}")
     if m["n"] != c["n"]:
@@ -482,7 +488,7 @@ def compare_model(mt, m, c, raw, exact):
     return diffs
 
 
-def oracle(mt, cs, has_empty):
+def oracle(mt, cs, has_empty, mag):
     """Property C18 on the three frameworks' canonical samples (one index). → list of failures."""
     fails = []
     a = cs["mem"]
@@ -493,7 +499,7 @@ def oracle(mt, cs, has_empty):
             fails.append(f"image mem vs {fw}: {e}")
         keys = {"single": ["inst"], "bottomup": ["inst"], "centroid": ["cen"], "centered": ["inst", "cen", "bbox"]}[mt]
         for k in keys:
-            e = close_pts(a[k], b[k], 1e-5)
+            e = close_pts(a[k], b[k], 1e-5, 1e-6 * mag)
             if e:
                 fails.append(f"{k} mem vs {fw}: {e}")
         for i, (x, y) in enumerate(zip(a["tgt"], b["tgt"])):
@@ -527,7 +533,7 @@ def gen_case(rng, mt=None, scale=None, excluded=False):
         edges = [(1, 0), (1, 2)]
     # sizes chosen so that eff_scale is 1, dyadic (2) or not dyadic (8/5, 4/3 …) with comparable odds
     big = rng.choice([(96, 128), (120, 160), (100, 150), (128, 128), (90, 132)])
-    nv = rng.choice([1, 1, 2])
+    nv = rng.choice([1, 2, 2])
     sizes = [big]
     if nv == 2:
         sizes.append(rng.choice([(big[0] // 2, big[1] // 2), (big[0] * 5 // 8, big[1] * 5 // 8),
@@ -653,6 +659,7 @@ def run_case(chk, spec, cfg, alias, tmp, tag, do_model=True):
     in_region = covered(cfg)
     excluded_cfg = cfg["cfg_max"] is not None and tuple(cfg["cfg_max"]) != tuple(max_hw)
     exact = eff_is_exact(spec, cfg, max_hw) and not excluded_cfg
+    mag = 2.0 * max(list(max_hw) + list(cfg["cfg_max"] or [])) * max(1.0, float(cfg["scale"]))
     lines, keys = [], []
     for i, (fr, k) in enumerate(idx):
         for fw in FWS:
@@ -677,7 +684,7 @@ def run_case(chk, spec, cfg, alias, tmp, tag, do_model=True):
                 bad = True
                 continue
             m = parse_model(line)
-            diffs = compare_model(mt, m, cs[fw], raw, exact)
+            diffs = compare_model(mt, m, cs[fw], raw, exact, mag)
             if diffs:
                 bad = True
                 chk.disagree(f"sampleOf {fw} {mt} == real framework", {**case, "index": i, "k": k},
@@ -693,7 +700,7 @@ def run_case(chk, spec, cfg, alias, tmp, tag, do_model=True):
                     chk.disagree("hypothesis padStride∘quant8 = quant8∘padStride", {**case, "index": i},
                                  float((a_ - b_).abs().max()), 0.0)
                 chk.tag("hyp_pad_quant_commute_checked")
-        fails = oracle(mt, cs, has_empty) if (in_region or excluded_cfg) else []
+        fails = oracle(mt, cs, has_empty, mag) if (in_region or excluded_cfg) else []
         if fails:
             all_fails += fails
             chk.fail(f"C18 fails ({mt}, scale {cfg['scale']}): " + "; ".join(fails[:3]),
@@ -1050,7 +1057,8 @@ if __name__ == "__main__":
             "targets: the repo's generate_confmaps / generate_multiconfmaps / generate_pafs interpret the model's target "
             "specifications (their own correctness is C01/C05)",
             "litdata storage (optimize + chunk reader) is bypassed: assumed to return what the chunk function produced",
-            "float32 evaluation of eff_scale·scale products stays within 2e-6 relative (measured); exact on dyadic cases",
+            "float32 evaluation of eff_scale·scale products stays within 2e-6 relative + 1e-6·(frame size·scale) absolute "
+            "(measured); compared exactly on dyadic cases",
         ],
         rule="in-memory sio.Labels (1-2 videos of different sizes, 1-4 frames, 1-3 instances with missing nodes and "
              "empty instances, textured uint8 frames incl. a window of the asset frame) x model type x scale in "
